@@ -13,17 +13,16 @@ model `absStep` of `extend_*`/`truncate`).
 Modelled is the repaired code (DESIGN §7 #2): `to_multi_int` without the `!is_empty()` guards and
 `to_multi_float64` with the `Empty` arm.
 
-Two points where the code does less than the statement are stated as explicit exceptions, proved
-to be exceptions on witnesses, and recorded as known findings (the driver's oracle stays at
-statement strength and reports them):
-* `negative-zero-unsigned`: a zero written with a minus sign (`"-0"`) is refused for unsigned
-  targets although 0 is representable (`parse_neg_zero_unsigned`; `parse_complete` shows it is the
-  only such case);
-* `truncate-str-limit0`: `truncate(0)` leaves a `Str` with its item. The doc comment of `truncate`
-  reads "Shorten this value by removing trailing elements to fit the given limit. […] Nothing is
-  done if the value's cardinality is already lower than or equal to the limit." — it documents no
-  exception for `Str` (whose `multiplicity()` is 1), so this is a deviation, not documented
-  behaviour (`truncate_str_limit0`; `truncate_spec` holds for every other value).
+One point where the code does less than the statement is stated as an explicit exception, proved
+to be one on a witness, and recorded as a known finding (the driver's oracle stays at statement
+strength and reports it): `negative-zero-unsigned` — a zero written with a minus sign (`"-0"`) is
+refused for unsigned targets although 0 is representable (`parse_neg_zero_unsigned`;
+`parse_complete` shows it is the only such case).
+
+`truncate`: the doc comment reads "Shorten this value by removing trailing elements to fit the
+given limit. […] Nothing is done if the value's cardinality is already lower than or equal to the
+limit." The unchanged code left a `Str` (one item) alone for limit 0; modelled is the repaired code
+(/repo 65d0025: `Str` with limit 0 becomes `Empty`), so `truncate_spec` holds for every value.
 -/
 namespace Dicom.NumConv
 
@@ -544,21 +543,35 @@ theorem extend_card (ops : FloatOps) (v v' : PV) (e : Ext) (h : extend ops v e =
     rw [← items_length, hi, List.length_append, items_length, appended,
       appended_length ops _ _ hc]
 
-/-- **truncate.** Trailing items are removed to fit the limit (kind unchanged) — except that a
-single string is left alone. -/
+/-- **truncate.** The items are the first `limit` items, for every value; the kind is unchanged,
+except that a single string which loses its item becomes the empty value. -/
 theorem truncate_spec (n : Nat) (v : PV) :
-    (truncate n v).kind = v.kind ∧
-    ((∀ s, v ≠ .str s) → (truncate n v).items = v.items.take n ∧
-        (truncate n v).card = min n v.card) ∧
-    (∀ s, v = .str s → truncate n v = v) := by
-  cases v <;> simp [truncate, PV.kind, PV.items, PV.card, List.map_take]
+    (truncate n v).items = v.items.take n ∧
+    (truncate n v).card = min n v.card ∧
+    ((truncate n v).kind = v.kind ∨ (∃ s, v = .str s ∧ n = 0 ∧ truncate n v = .empty)) := by
+  cases v with
+  | str s =>
+    by_cases h : n = 0
+    · subst h; simp [truncate, PV.items, PV.card]
+    · have : 1 ≤ n := by omega
+      simp [truncate, h, PV.items, PV.card, PV.kind, List.take_of_length_le, this]
+  | empty | strs _ | tags _ | ints _ _ | f32 _ | f64 _ | date _ | dateTime _ | time _ =>
+    simp [truncate, PV.kind, PV.items, PV.card, List.map_take]
 
 /-- nothing is done if the value already fits -/
 theorem truncate_noop (n : Nat) (v : PV) (h : v.card ≤ n) : truncate n v = v := by
-  cases v <;> simp_all [truncate, PV.card, List.take_of_length_le]
+  cases v with
+  | str s =>
+    have : n ≠ 0 := by simp [PV.card] at h; omega
+    simp [truncate, this]
+  | empty | strs _ | tags _ | ints _ _ | f32 _ | f64 _ | date _ | dateTime _ | time _ =>
+    simp_all [truncate, PV.card, List.take_of_length_le]
 
-/-- The exception is real: `Str("x").truncate(0)` still holds one item. -/
-theorem truncate_str_limit0 : (truncate 0 (.str ['x'])).card = 1 := by decide
+/-- the value fits the limit afterwards (repaired point: also a single string with limit 0) -/
+theorem truncate_fits (n : Nat) (v : PV) : (truncate n v).card ≤ n := by
+  rw [(truncate_spec n v).2.1]; omega
+
+theorem truncate_str_limit0 (s : List Char) : truncate 0 (.str s) = .empty := rfl
 
 /-- **histories.** Every step of the real operations is the corresponding step of the list model
 on (kind, items) … -/
@@ -566,7 +579,14 @@ theorem step_refines (ops : FloatOps) (v : PV) (op : Op) :
     (step ops v op).abs = absStep ops v.abs op := by
   cases op with
   | truncate n =>
-    cases v <;> simp [step, truncate, absStep, PV.abs, PV.kind, PV.items, List.map_take]
+    cases v with
+    | str s =>
+      by_cases h : n = 0
+      · subst h; simp [step, truncate, absStep, PV.abs, PV.kind, PV.items]
+      · have : 1 ≤ n := by omega
+        simp [step, truncate, absStep, PV.abs, PV.kind, PV.items, h, List.take_of_length_le, this]
+    | empty | strs _ | tags _ | ints _ _ | f32 _ | f64 _ | date _ | dateTime _ | time _ =>
+      simp [step, truncate, absStep, PV.abs, PV.kind, PV.items, List.map_take]
   | extend e =>
     have := extend_spec ops v e
     simp only [step, absStep, PV.abs]
@@ -692,7 +712,8 @@ theorem truncate_wf (n : Nat) (v : PV) (hv : v.WF) : (truncate n v).WF := by
   | ints k l => exact ⟨hv.1, fun x hx => hv.2 x (List.mem_of_mem_take hx)⟩
   | f32 l => exact fun x hx => hv x (List.mem_of_mem_take hx)
   | f64 l => exact fun x hx => hv x (List.mem_of_mem_take hx)
-  | empty | str _ | strs _ | tags _ | date _ | dateTime _ | time _ => trivial
+  | str s => by_cases h : n = 0 <;> simp [truncate, h, PV.WF]
+  | empty | strs _ | tags _ | date _ | dateTime _ | time _ => trivial
 
 def Op.WF : Op → Prop
   | .extend e => e.WF
